@@ -300,9 +300,6 @@ RAW_WRITERS = {
     "edge-insert": ({"add_edge", "add_edges_from", "add_weighted_edges_from"}, {"connect"}),
     "graph-merge": ({"update"}, {"add_subcircuit", "fill_blackbox"}),
     "node-insert": ({"add_node", "add_nodes_from"}, {"add"}),
-    "node-remove": ({"remove_node", "remove_nodes_from"}, {"remove"}),
-    "edge-remove": ({"remove_edge", "remove_edges_from"}, {"disconnect"}),
-    "clear": ({"clear", "clear_edges"}, set()),
 }
 
 
@@ -456,10 +453,15 @@ def check_ordering(chk, repo):
         seen = set()
         for st in o.found:
             txt = norm(st)[:100]
-            if txt in seen:
+            # the construct is identified by the kind of raise-capable point (callee name / explicit raise), so that
+            # re-wording the statement neither hides nor duplicates a finding
+            kinds = sorted({f"self.{n.func.attr}()" for n in walk_no_nested(st) if isinstance(n, ast.Call) and isinstance(n.func, ast.Attribute) and dotted(n.func.value) == "self"
+                            and n.func.attr in ("connect", "add", "set_type", "relabel", "add_blackbox", "add_subcircuit", "fill_blackbox")} | ({"raise"} if any(isinstance(n, ast.Raise) for n in walk_no_nested(st)) else set()))
+            kind = "+".join(kinds) or "call"
+            if kind in seen:
                 continue
-            seen.add(txt)
-            chk.ob("C07.O.check-before-mutate", f"Circuit.{m}::raise-capable after an edge-adding point::{txt}", False, file=FILE, func=f"Circuit.{m}", line=st.lineno,
+            seen.add(kind)
+            chk.ob("C07.O.check-before-mutate", f"Circuit.{m}::raise-capable after an edge-adding point::{kind}", False, file=FILE, func=f"Circuit.{m}", line=st.lineno,
                    fact={"statement": txt}, expect="every explicit-raise-capable point precedes the first edge-adding point (a rejected call adds no edge)")
         if not o.found:
             chk.ob("C07.O.check-before-mutate", f"Circuit.{m}::all raise-capable points precede edge insertion", True, file=FILE, func=f"Circuit.{m}", line=fi.node.lineno, fact={})
